@@ -19,6 +19,7 @@ and ends with ``if __name__ == "__main__": driver.main(sys.modules[__name__])``.
 import hashlib
 import json
 import multiprocessing as mp
+import multiprocessing.pool
 import os
 import random
 import shutil
@@ -224,6 +225,27 @@ def load_known():
 # main
 # --------------------------------------------------------------------------
 
+class _NoDaemonProcess(mp.get_context("fork").Process):
+    """Shard workers may start real process pools (conformance runs)."""
+    @property
+    def daemon(self):
+        return False
+
+    @daemon.setter
+    def daemon(self, value):
+        pass
+
+
+class _NoDaemonContext(type(mp.get_context("fork"))):
+    Process = _NoDaemonProcess
+
+
+class NestablePool(mp.pool.Pool):
+    def __init__(self, *args, **kwargs):
+        kwargs["context"] = _NoDaemonContext()
+        super().__init__(*args, **kwargs)
+
+
 def _run_shard_wrapper(args):
     module_name, shard = args
     mod = sys.modules.get(module_name) or __import__(
@@ -271,9 +293,9 @@ def main(mod, argv=None):
         for t in tasks:
             merged.merge(_run_shard_wrapper(t))
     else:
-        ctx = mp.get_context("fork")
-        with ctx.Pool(min(nproc, len(tasks)),
-                      maxtasksperchild=getattr(mod, "MAXTASKS", None)) as pool:
+        with NestablePool(min(nproc, len(tasks)),
+                          maxtasksperchild=getattr(mod, "MAXTASKS", None)
+                          ) as pool:
             for res in pool.imap_unordered(_run_shard_wrapper, tasks,
                                            chunksize=1):
                 merged.merge(res)
